@@ -81,6 +81,9 @@ type Op struct {
 	Cfg   *Cfg   `json:"cfg"`
 	Cfg2  *Cfg   `json:"cfg2,omitempty"`
 	Share int    `json:"share,omitempty"`
+	// K = "race": the Loads of Cfgs are started together on one goroutine each,
+	// behind a barrier, with no forced schedule.
+	Cfgs []*Cfg `json:"cfgs,omitempty"`
 	// content of the message actually edited / loaded, projected at run time
 	actual *PCfg
 }
@@ -146,6 +149,7 @@ type Obs struct {
 	Kind  string  `json:"kind"` // load cur par panic hang
 	Err   bool    `json:"err,omitempty"`
 	Err2  bool    `json:"err2,omitempty"`  // par: result of Load(Cfg2)
+	Errs  []bool  `json:"errs,omitempty"`  // race: result of each Load
 	Early bool    `json:"early,omitempty"` // par: Load(Cfg2) returned while Load(Cfg) was parked in a handler
 	Note  string  `json:"note,omitempty"`
 	Calls []PCall `json:"calls,omitempty"`
@@ -389,6 +393,126 @@ func blockedInLoad(id int64) bool {
 	return false
 }
 
+// raceStep starts one goroutine per configuration of o.Cfgs behind a barrier.
+// With o.Cfg set, Load(o.Cfg) is started first and parked inside its first
+// handler call; the others are started and watched until each has returned or
+// sits in c.mu.Lock(); they are left waiting there for a few milliseconds (a
+// sync.Mutex whose waiters have waited for more than 1 ms hands the lock over
+// in FIFO order instead of letting the last owner take it again, which is what
+// lets a second waiter run between two critical sections of the first); then
+// the parked call is released.  Threads are numbered leader 0, others 1...
+func raceStep(r *runner, c *target.Config, held **pb.Configuration, o Op) Obs {
+	var cfgs []*Cfg
+	leader := o.Cfg != nil
+	if leader {
+		cfgs = append(cfgs, o.Cfg)
+	}
+	cfgs = append(cfgs, o.Cfgs...)
+	n := len(cfgs)
+	ms := make([]*pb.Configuration, n)
+	for i, cf := range cfgs {
+		ms[i] = mkCfg(cf)
+	}
+	r.take()
+	r.mu.Lock()
+	r.tags = map[int64]int{}
+	r.park = leader
+	r.entered = make(chan struct{})
+	r.release = make(chan struct{})
+	r.mu.Unlock()
+	released := false
+	defer func() {
+		r.mu.Lock()
+		r.tags = nil
+		r.park = false
+		r.mu.Unlock()
+		if !released {
+			close(r.release)
+		}
+	}()
+	errs := make([]bool, n)
+	pans := make([]interface{}, n)
+	ids := make([]int64, n)
+	dones := make([]chan struct{}, n)
+	gate := make(chan struct{})
+	var ready sync.WaitGroup
+	launch := func(i int, wait bool) {
+		dones[i] = make(chan struct{})
+		ready.Add(1)
+		go func() {
+			defer close(dones[i])
+			id := goid()
+			r.mu.Lock()
+			r.tags[id] = i
+			ids[i] = id
+			r.mu.Unlock()
+			ready.Done()
+			if wait {
+				<-gate
+			}
+			defer func() { pans[i] = recover() }()
+			errs[i] = c.Load(ms[i]) != nil
+		}()
+	}
+	first := 0
+	if leader {
+		launch(0, false)
+		ready.Wait()
+		select {
+		case <-dones[0]: // made no handler call: nothing is parked
+		case <-r.entered:
+		case <-time.After(10 * time.Second):
+			return Obs{Kind: "hang", Msg: "leading Load neither returned nor called a handler"}
+		}
+		first = 1
+	}
+	for i := first; i < n; i++ {
+		launch(i, true)
+	}
+	ready.Wait()
+	close(gate)
+	if leader {
+		// let every other Load come to rest (returned, or waiting for c.mu)
+		deadline := time.Now().Add(10 * time.Second)
+		for i := first; i < n; i++ {
+		watch:
+			for {
+				select {
+				case <-dones[i]:
+					break watch
+				default:
+				}
+				if blockedInLoad(ids[i]) || time.Now().After(deadline) {
+					break watch
+				}
+				time.Sleep(200 * time.Microsecond)
+			}
+		}
+		time.Sleep(3 * time.Millisecond)
+		released = true
+		close(r.release)
+	}
+	fin := make(chan struct{})
+	go func() {
+		for i := 0; i < n; i++ {
+			<-dones[i]
+		}
+		close(fin)
+	}()
+	select {
+	case <-fin:
+	case <-time.After(10 * time.Second):
+		return Obs{Kind: "hang", Msg: "racing Loads did not all return"}
+	}
+	for _, p := range pans {
+		if p != nil {
+			return Obs{Kind: "panic", Msg: fmt.Sprint(p)}
+		}
+	}
+	*held = nil // which message took effect last is not known; in-place edits are not combined with races
+	return Obs{Kind: "race", Errs: errs, Calls: r.take(), Cur: observeCurrent(c)}
+}
+
 // parStep runs the forced two-thread schedule.
 func parStep(r *runner, c *target.Config, held **pb.Configuration, o Op) Obs {
 	ma, mb := mkCfg(o.Cfg), mkCfg(o.Cfg2)
@@ -499,7 +623,42 @@ func parStep(r *runner, c *target.Config, held **pb.Configuration, o Op) Obs {
 		*held = mb
 	}
 	return Obs{Kind: "par", Err: ra.err != nil, Err2: rb.err != nil, Early: early, Calls: r.take(),
-		Cur: projCfg(c.Current()), Note: note}
+		Cur: observeCurrent(c), Note: note}
+}
+
+// observeCurrent projects Current(), then scribbles all over the message it
+// was handed and looks again: what Current() hands out must be the caller's.
+func observeCurrent(c *target.Config) PCfg {
+	m := c.Current()
+	p := projCfg(m)
+	if m != nil {
+		m.Revision += 17
+		for k, r := range m.Request {
+			if r != nil {
+				proto.Reset(r)
+				r.Request = &gpb.SubscribeRequest_Poll{Poll: &gpb.Poll{}}
+			}
+			_ = k
+		}
+		for k, t := range m.Target {
+			if t != nil {
+				t.Addresses = append(t.Addresses[:0], "scribbled")
+				t.Request = "scribbled"
+			}
+			if len(k)%2 == 0 {
+				delete(m.Target, k)
+			}
+		}
+		if m.Request == nil {
+			m.Request = map[string]*gpb.SubscribeRequest{}
+		}
+		m.Request["scribbled"] = &gpb.SubscribeRequest{}
+		m.InstanceId = "scribbled"
+	}
+	if p2 := projCfg(c.Current()); !samePCfg(p, p2) {
+		return p2
+	}
+	return p
 }
 
 func overwrite(dst, src *pb.Configuration) {
@@ -668,7 +827,7 @@ func step(r *runner, c *target.Config, held **pb.Configuration, o *Op) (res Obs)
 		if err == nil {
 			*held = m
 		}
-		return Obs{Kind: "load", Err: err != nil, Calls: r.take(), Cur: projCfg(c.Current())}
+		return Obs{Kind: "load", Err: err != nil, Calls: r.take(), Cur: observeCurrent(c)}
 	case "reload":
 		r.take()
 		var m *pb.Configuration
@@ -683,7 +842,7 @@ func step(r *runner, c *target.Config, held **pb.Configuration, o *Op) (res Obs)
 		if err == nil {
 			*held = m
 		}
-		return Obs{Kind: "load", Err: err != nil, Calls: r.take(), Cur: projCfg(c.Current())}
+		return Obs{Kind: "load", Err: err != nil, Calls: r.take(), Cur: observeCurrent(c)}
 	case "mutate":
 		r.take()
 		note := ""
@@ -700,25 +859,42 @@ func step(r *runner, c *target.Config, held **pb.Configuration, o *Op) (res Obs)
 		if len(r.take()) != 0 {
 			panic("handler called without a Load")
 		}
-		return Obs{Kind: "cur", Cur: projCfg(c.Current()), Note: note}
+		return Obs{Kind: "cur", Cur: observeCurrent(c), Note: note}
 	case "par":
 		return parStep(r, c, held, *o)
+	case "race":
+		return raceStep(r, c, held, *o)
 	}
 	panic("unknown op " + o.K)
 }
 
+// hangs counts cases in which the code under test did not return; after a few
+// of them the generators stop (every further case would cost a watchdog period
+// and the verdict is settled).
+var hangs int
+
 func runCase(c *Case) {
 	done := make(chan struct{})
+	work := *c // the worker owns its own copy; a hung worker never touches c again
 	go func() {
 		defer close(done)
-		runCaseInner(c)
+		runCaseInner(&work)
 	}()
 	select {
 	case <-done:
-	case <-time.After(20 * time.Second):
-		// a hang of the code under test: report what was observed so far
-		for len(c.Obs) < len(c.Ops) {
+		*c = work
+	case <-time.After(12 * time.Second):
+		// a hang of the code under test: every step is reported as hung
+		hangs++
+		c.Obs = nil
+		for range c.Ops {
 			c.Obs = append(c.Obs, Obs{Kind: "hang"})
+		}
+		if c.Base != nil || c.WithBase {
+			cur := projCfg(mkCfg(c.Base))
+			c.Cur0 = &cur
+		} else {
+			c.Cur0 = &PCfg{Nil: true}
 		}
 	}
 }
@@ -750,7 +926,7 @@ func runCaseInner(c *Case) {
 			}
 			held = b
 		}
-		cur := projCfg(cfg.Current())
+		cur := observeCurrent(cfg)
 		c.Cur0 = &cur
 	}()
 	if cfg == nil {
@@ -830,6 +1006,16 @@ func opTerm(n *vh.Names, o Op) string {
 	if o.K == "par" {
 		return fmt.Sprintf("OPar %s %s", pcfgTerm(n, inCfg(o.Cfg)), pcfgTerm(n, inCfg(o.Cfg2)))
 	}
+	if o.K == "race" {
+		var as []string
+		if o.Cfg != nil {
+			as = append(as, pcfgTerm(n, inCfg(o.Cfg)))
+		}
+		for _, cf := range o.Cfgs {
+			as = append(as, pcfgTerm(n, inCfg(cf)))
+		}
+		return "ORace " + vh.List(as)
+	}
 	if o.K == "mutate" {
 		if o.Cfg == nil {
 			return "OLoad None" // not generated; a mutate without content is nothing
@@ -855,6 +1041,16 @@ func obsTerm(n *vh.Names, r Obs) string {
 		return fmt.Sprintf("RLoad %s %s %s", vh.Bool(r.Err), vh.List(cs), pcfgTerm(n, r.Cur))
 	case "cur":
 		return "RCur " + pcfgTerm(n, r.Cur)
+	case "race":
+		cs := make([]string, len(r.Calls))
+		for i, c := range r.Calls {
+			cs[i] = fmt.Sprintf("(%s, %s)", vh.Nat(c.By), callTerm(n, c))
+		}
+		es := make([]string, len(r.Errs))
+		for i, e := range r.Errs {
+			es[i] = vh.Bool(e)
+		}
+		return fmt.Sprintf("RRace %s %s %s", vh.List(es), vh.List(cs), pcfgTerm(n, r.Cur))
 	case "par":
 		cs := make([]string, len(r.Calls))
 		for i, c := range r.Calls {
@@ -893,9 +1089,9 @@ func cloneCfg(c *Cfg) *Cfg {
 	return d
 }
 
-var tnames = []string{"t1", "t2", "t3", "t4", "dev-é/x"}
-var rnames = []string{"r1", "r2", "r3", "interfaces"}
-var addrs = []string{"10.0.0.1:1", "10.0.0.2:1", "h:9339"}
+var tnames = []string{"t1", "t2", "t3", "t4", "dev-é/x", "*", " "}
+var rnames = []string{"r1", "r2", "r3", "interfaces", "R1", "*/x"}
+var addrs = []string{"10.0.0.1:1", "10.0.0.2:1", "h:9339", "10.0.0.1:1", ""}
 
 func (c *Cfg) hasReq(k string) int {
 	for i, r := range c.Reqs {
@@ -1138,6 +1334,95 @@ func aliasDeep() []Case {
 	return out
 }
 
+// sizes: configurations with 0 / 1 / 8 / 9 / 33 targets, every ordered pair of
+// sizes: the second load keeps the common names, changes every other one of
+// them, and adds / removes the rest.
+func sizeCases() []Case {
+	mk := func(n int, rev int64, alt bool) *Cfg {
+		c := &Cfg{Rev: rev, Reqs: []Req{{K: "r1", V: 2}, {K: "r2", V: 3}}}
+		for i := 0; i < n; i++ {
+			t := Tgt{K: fmt.Sprintf("t%03d", i), Addrs: []string{fmt.Sprintf("h%d:1", i)}, Req: "r1"}
+			if alt && i%2 == 1 {
+				t.Addrs = append(t.Addrs, "x:2")
+			}
+			if i%3 == 0 {
+				t.Req = "r2"
+			}
+			c.Tgts = append(c.Tgts, t)
+		}
+		return c
+	}
+	var out []Case
+	sizes := []int{0, 1, 8, 9, 33}
+	for _, a := range sizes {
+		for _, b := range sizes {
+			out = append(out, Case{Family: "sizes", Ops: []Op{
+				{K: "load", Cfg: mk(a, 1, false)}, {K: "load", Cfg: mk(b, 2, true)}, {K: "load", Cfg: mk(0, 3, false)}}})
+		}
+	}
+	return out
+}
+
+// maskedDiffers runs the loads of c again on a fresh Config whose Handler
+// lacks the callbacks in mask (1 Add, 2 Update, 4 Delete: nil function
+// values) and reports the first step whose error result, Current() or
+// remaining handler calls differ from the full run, or which panics.
+func maskedDiffers(c Case, mask int) (int, string) {
+	kindBit := map[string]int{"add": 1, "update": 2, "delete": 4}
+	key := func(cs []PCall) string {
+		var ks []string
+		for _, cl := range cs {
+			if kindBit[cl.Kind]&mask != 0 {
+				continue
+			}
+			b, _ := json.Marshal(cl)
+			ks = append(ks, string(b))
+		}
+		sort.Strings(ks)
+		return strings.Join(ks, "|")
+	}
+	r := &runner{}
+	h := r.handler()
+	if mask&1 != 0 {
+		h.Add = nil
+	}
+	if mask&2 != 0 {
+		h.Update = nil
+	}
+	if mask&4 != 0 {
+		h.Delete = nil
+	}
+	var cfg *target.Config
+	if c.Base == nil && !c.WithBase {
+		cfg = target.NewConfig(h)
+	} else {
+		var err error
+		cfg, err = target.NewConfigWithBase(h, mkCfg(c.Base))
+		if err != nil {
+			return -1, ""
+		}
+	}
+	for i, o := range c.Ops {
+		if i >= len(c.Obs) || o.K != "load" || c.Obs[i].Kind != "load" {
+			return -1, ""
+		}
+		var err error
+		var pan interface{}
+		func() {
+			defer func() { pan = recover() }()
+			err = cfg.Load(mkCfg(o.Cfg))
+		}()
+		if pan != nil {
+			return i, fmt.Sprint("panic with a nil callback: ", pan)
+		}
+		got := r.take()
+		if (err != nil) != c.Obs[i].Err || key(got) != key(c.Obs[i].Calls) || !samePCfg(observeCurrent(cfg), c.Obs[i].Cur) {
+			return i, "run with a nil callback differs from the full run"
+		}
+	}
+	return -1, ""
+}
+
 // invalidEdit makes a configuration invalid (when it can).
 func invalidEdit(r *vh.Rand, c *Cfg) string {
 	if len(c.Tgts) == 0 {
@@ -1348,6 +1633,49 @@ func randHistory(r *vh.Rand, h *vh.Meta, mutate bool) Case {
 	return c
 }
 
+// raceCase: one sequential load (revision 1), then three Loads started
+// together: different contents with the same next revision (exactly one may
+// win), or revisions 2, 3, 2.
+func raceCase(r *vh.Rand, h *vh.Meta) Case {
+	c := Case{Family: "race"}
+	w := randValid(r, 1)
+	c.Ops = append(c.Ops, Op{K: "load", Cfg: cloneCfg(w)})
+	mk := func(rev int64) *Cfg {
+		n := cloneCfg(w)
+		k := 1 + r.Intn(3)
+		for j := 0; j < k; j++ {
+			validEdit(r, n)
+		}
+		n.Rev = rev
+		return n
+	}
+	var cfgs []*Cfg
+	if r.Chance(2, 3) {
+		cfgs = []*Cfg{mk(2), mk(2), mk(2)}
+		h.Hist("race:same-revision")
+	} else {
+		cfgs = []*Cfg{mk(2), mk(3), mk(2)}
+		h.Hist("race:revisions-2-3-2")
+	}
+	if r.Chance(2, 3) {
+		// behind a load that is parked in a handler: the racers queue on c.mu
+		lead := mk(2)
+		if len(lead.Reqs) == 0 {
+			lead.Reqs = append(lead.Reqs, Req{K: "r1", V: 2})
+		}
+		lead.Tgts = append(lead.Tgts, Tgt{K: "lead", Addrs: []string{"l:1"}, Req: lead.Reqs[0].K})
+		for _, x := range cfgs {
+			x.Rev++
+		}
+		c.Ops = append(c.Ops, Op{K: "race", Cfg: lead, Cfgs: cfgs[:2]})
+		h.Hist("race:queued-behind-parked-load")
+	} else {
+		c.Ops = append(c.Ops, Op{K: "race", Cfgs: cfgs})
+	}
+	c.Ops = append(c.Ops, Op{K: "load", Cfg: mk(9)})
+	return c
+}
+
 // parCase: optionally one sequential load, then two overlapping loads (the
 // second usually an edit of the first with the next revision), optionally one
 // more sequential load.
@@ -1541,7 +1869,41 @@ type emitter struct {
 }
 
 func (e *emitter) add(c Case) {
+	if hangs >= 3 && c.Family != "replay" {
+		e.meta.Hist("skipped-after-hangs")
+		return
+	}
 	runCase(&c)
+	if c.Family == "random" && e.meta.Evaluations%5 == 0 && !c.BaseErr {
+		for _, mask := range []int{1, 2, 4, 7} {
+			if hangs > 0 {
+				break
+			}
+			type md struct {
+				i   int
+				msg string
+			}
+			ch := make(chan md, 1)
+			go func() { i, msg := maskedDiffers(c, mask); ch <- md{i, msg} }()
+			i, msg := -1, ""
+			select {
+			case x := <-ch:
+				i, msg = x.i, x.msg
+			case <-time.After(12 * time.Second):
+				hangs++
+				i, msg = 0, "run with a nil callback hangs"
+				if len(c.Obs) == 0 {
+					i = -1
+				}
+			}
+			if i >= 0 {
+				c.Obs[i] = Obs{Kind: "panic", Msg: fmt.Sprintf("handler mask %d: %s", mask, msg)}
+				e.meta.Hist("nil-callback-run-differs")
+				break
+			}
+		}
+		e.meta.Hist("nil-callback-runs")
+	}
 	e.cf.Add(caseTerm(e.cf.Names, c), c)
 	if c.BaseErr {
 		e.meta.Hist("base:rejected")
@@ -1556,6 +1918,15 @@ func (e *emitter) add(c Case) {
 		switch {
 		case r.Kind == "panic" || r.Kind == "hang":
 			e.meta.Hist(r.Kind)
+		case r.Kind == "race":
+			e.meta.Hist("op:race")
+			acc := 0
+			for _, x := range r.Errs {
+				if !x {
+					acc++
+				}
+			}
+			e.meta.Hist(fmt.Sprintf("race:accepted:%d", acc))
 		case r.Kind == "par":
 			e.meta.Hist("op:par")
 			na, nb := 0, 0
@@ -1657,7 +2028,7 @@ func main() {
 	if f := flag.Lookup("stderrthreshold"); f != nil {
 		f.Value.Set("FATAL")
 	}
-	meta := vh.NewMeta("corpus cases; every ordered pair (A, B) of configurations over two target names x two request names (target: absent / ->r1 addr a / ->r1 addr b / ->r2 addr a; request: absent / content 1 / content 2) loaded as revisions 1 and 2 (quick: A valid; thorough: all A over a 225-configuration universe, for valid A also revisions 2-then-2 and 2-then-1, plus A as base); every ordered pair over one request name whose value is absent / nil pointer / empty message / a subscription and two targets using it or absent (256); seeded random histories of 2..7 loads evolving one configuration by 0..3 edits per load (add/remove/edit target, re-point, edit/rename/swap/add/remove request, nil request pointer, other fields), invalid variants, nil loads, revision deltas {+1,0,-1,+5,-7,+-2^40} and absolute revisions at the int64 limits; 'rev-extremes': every ordered pair of {MinInt64, MinInt64+1, -2^62-1, -1, 0, 1, 2^62, MaxInt64-1, MaxInt64} as load-then-load, base-then-load and after a revision-0 load (243); with and without a (valid/invalid/nil) base; in every fourth history the caller also edits the message it loaded last IN PLACE AT EVERY LEVEL OF SHARING (same map objects, request / target / credentials messages, Addresses slice, nested Subscription / Path / PathElem messages edited where they are) and then usually loads a higher revision built from the same objects (the same message, or a new configuration sharing the request and target objects) or a fresh message; 'alias-deep': 18 kinds of in-place edit x {same message, shared objects, fresh} x revision {2, 1} after a fixed first load; 'concurrent' cases: two overlapping Loads under a forced schedule (the first parked inside its first handler call while the second is issued from another goroutine and watched until it returned or sits in c.mu.Lock()), over every ordered pair of the 16-configuration nil-pointer universe as revisions (1,2) and (2,1) and over seeded random pairs (second load an edit of the first / of the base, revision above / equal / below, invalid, nil) with optional sequential loads before and after. distinct = distinct (base, operations); non-trivial = some accepted load on a non-nil current configuration that produced at least one handler call")
+	meta := vh.NewMeta("corpus cases; every ordered pair (A, B) of configurations over two target names x two request names (target: absent / ->r1 addr a / ->r1 addr b / ->r2 addr a; request: absent / content 1 / content 2) loaded as revisions 1 and 2 (quick: A valid; thorough: all A over a 225-configuration universe, for valid A also revisions 2-then-2 and 2-then-1, plus A as base); every ordered pair over one request name whose value is absent / nil pointer / empty message / a subscription and two targets using it or absent (256); seeded random histories of 2..7 loads evolving one configuration by 0..3 edits per load (add/remove/edit target, re-point, edit/rename/swap/add/remove request, nil request pointer, other fields), invalid variants, nil loads, revision deltas {+1,0,-1,+5,-7,+-2^40} and absolute revisions at the int64 limits; 'race': after one load, three Loads started together behind a barrier with no forced schedule (same next revision, or revisions 2,3,2), accepted if SOME sequential order explains results, calls and Current(); 'sizes': every ordered pair of configurations with 0/1/8/9/33 targets; every fifth random history is run again with nil Add / Update / Delete / all callbacks and must agree with the full run on the remaining calls; Current() is observed twice with the first result scribbled over in between; names include '*', ' ', 'R1' next to 'r1', an empty address and duplicate addresses; 'rev-extremes': every ordered pair of {MinInt64, MinInt64+1, -2^62-1, -1, 0, 1, 2^62, MaxInt64-1, MaxInt64} as load-then-load, base-then-load and after a revision-0 load (243); with and without a (valid/invalid/nil) base; in every fourth history the caller also edits the message it loaded last IN PLACE AT EVERY LEVEL OF SHARING (same map objects, request / target / credentials messages, Addresses slice, nested Subscription / Path / PathElem messages edited where they are) and then usually loads a higher revision built from the same objects (the same message, or a new configuration sharing the request and target objects) or a fresh message; 'alias-deep': 18 kinds of in-place edit x {same message, shared objects, fresh} x revision {2, 1} after a fixed first load; 'concurrent' cases: two overlapping Loads under a forced schedule (the first parked inside its first handler call while the second is issued from another goroutine and watched until it returned or sits in c.mu.Lock()), over every ordered pair of the 16-configuration nil-pointer universe as revisions (1,2) and (2,1) and over seeded random pairs (second load an edit of the first / of the base, revision above / equal / below, invalid, nil) with optional sequential loads before and after. distinct = distinct (base, operations); non-trivial = some accepted load on a non-nil current configuration that produced at least one handler call")
 	e := &emitter{dir: o.Out, cf: vh.NewCaseFile(), meta: meta, limit: 1500}
 
 	if o.Replay != "" {
@@ -1733,6 +2104,9 @@ func main() {
 	for _, c := range revExtremes() {
 		e.add(c)
 	}
+	for _, c := range sizeCases() {
+		e.add(c)
+	}
 	// two overlapping loads: every ordered pair of the nil-pointer universe, as
 	// revisions (1, 2) and (2, 1)
 	for _, a := range nu {
@@ -1764,6 +2138,13 @@ func main() {
 	}
 	for i := 0; i < npar; i++ {
 		e.add(parCase(r.Fork(), meta))
+	}
+	nrace := 400
+	if o.Thorough() {
+		nrace = 4000
+	}
+	for i := 0; i < nrace; i++ {
+		e.add(raceCase(r.Fork(), meta))
 	}
 	e.flush()
 	meta.Exhaustive = false
